@@ -5,6 +5,7 @@ pub mod fmt;
 pub mod json;
 pub mod key;
 pub mod nd;
+pub mod pool;
 pub mod sched;
 pub mod scru;
 pub mod ssri;
@@ -24,6 +25,10 @@ pub fn reset_all() {
     sched::reset();
     scru::reset();
     trace::reset();
+    unsafe { pool::MULTI = false };
+    unsafe { stdm::sync::HELD = 0 };
+    stdm::collections::reset_sets();
+    crate::store::harness::reset_pools();
     stdm::time::set_clock(0);
 }
 
@@ -81,4 +86,13 @@ pub fn utf8_ok(b: &[u8]) -> bool {
         }
     }
     true
+}
+
+/// "process restart" for reopen harnesses: in-memory model state (channel pools, registry sets,
+/// task table, iterators) is forgotten, the keyspace (fjall partitions, codec table) survives.
+pub fn restart_memory() {
+    stdm::collections::reset_sets();
+    crate::store::harness::reset_pools();
+    sched::reset();
+    unsafe { fjall::NITERS = 0 };
 }
